@@ -4,7 +4,10 @@ import (
 	"errors"
 	"fmt"
 	"go/ast"
+	"go/parser"
+	"go/token"
 	"path"
+	"path/filepath"
 	"strings"
 
 	"golang.org/x/tools/go/packages"
@@ -18,10 +21,32 @@ func LoadPackages(fileName string, additional ...string) (
 	*ImportHandler,
 	error,
 ) {
+	return LoadPackagesIgnoring(fileName, "", additional...)
+}
+
+// LoadPackagesIgnoring is LoadPackages for a generator that is about to overwrite outFile.
+// If outFile lies in the directory of fileName it is loaded as if it held nothing but the package
+// clause, whatever it holds now (a previous output, broken code, nothing at all). The type
+// information then describes the package as it will be when outFile is rewritten: what is
+// generated does not depend on what was generated before.
+func LoadPackagesIgnoring(fileName, outFile string, additional ...string) (
+	[]*packages.Package, // all
+	*packages.Package, // primary
+	*ast.File, // primary
+	*ImportHandler,
+	error,
+) {
 	cfg := &packages.Config{
 		Mode: packages.NeedName | packages.NeedFiles | packages.NeedCompiledGoFiles |
 			packages.NeedImports | packages.NeedDeps | packages.NeedTypesInfo | packages.NeedTypes |
 			packages.NeedEmbedPatterns | packages.NeedSyntax,
+	}
+	if outFile != "" {
+		overlay, err := emptyFileOverlay(fileName, outFile)
+		if err != nil {
+			return nil, nil, nil, nil, err
+		}
+		cfg.Overlay = overlay
 	}
 
 	paths := []string{path.Dir(fileName)}
@@ -47,6 +72,28 @@ func LoadPackages(fileName string, additional ...string) (
 	}
 
 	return pkgs, pkg, fAST, calcImports(pkg, fAST), nil
+}
+
+// emptyFileOverlay returns a packages.Config.Overlay that replaces outFile by an empty file of the
+// package of fileName. It returns no overlay if outFile is fileName itself or lies in another
+// directory (it is then not a file of that package).
+func emptyFileOverlay(fileName, outFile string) (map[string][]byte, error) {
+	src, err := filepath.Abs(fileName)
+	if err != nil {
+		return nil, err
+	}
+	out, err := filepath.Abs(outFile)
+	if err != nil {
+		return nil, err
+	}
+	if src == out || filepath.Dir(src) != filepath.Dir(out) {
+		return nil, nil
+	}
+	f, err := parser.ParseFile(token.NewFileSet(), src, nil, parser.PackageClauseOnly)
+	if err != nil {
+		return nil, err
+	}
+	return map[string][]byte{out: []byte("package " + f.Name.Name + "\n")}, nil
 }
 
 // FindFAST finds an *ast.File in a package.
